@@ -118,6 +118,58 @@ func gen(tier string, r *lib.Rand, emit func(string)) {
 				alloclib.BadCfgs[r.Intn(len(alloclib.BadCfgs))], alloclib.Histories[r.Intn(len(alloclib.Histories))]))
 		}
 	}
+	// (b'') several programs from the real producers, allocated in turn under different
+	// configurations; every program is re-examined after all allocations
+	schedules := [][]alloclib.Event{
+		{{0, 0}, {1, 1}}, {{1, 1}, {0, 0}}, {{0, 0}, {1, 1}, {0, 0}}, {{0, 0}, {1, 0}}, {{0, 1}, {1, 2}, {0, 3}},
+		{{0, 0}, {1, 1}, {2, 2}}, {{2, 2}, {0, 0}, {1, 1}}, {{0, 0}, {1, 1}, {2, 0}, {1, 3}},
+	}
+	multi := func(srcs []alloclib.Source, k int) {
+		sch := schedules[k%len(schedules)]
+		need := 0
+		for _, e := range sch {
+			if e.K+1 > need {
+				need = e.K + 1
+			}
+		}
+		for len(srcs) < need {
+			srcs = append(srcs, srcs[len(srcs)-1])
+		}
+		cfgs := []alloclib.Cfg{good[k%len(good)], good[(k+1)%len(good)], good[(k+2)%len(good)], good[(k+3)%len(good)]}
+		if c, ok := alloclib.MultiCase(srcs[:need], cfgs, sch); ok {
+			emit(c)
+		}
+	}
+	var small []addchain.Program
+	for n := 1; n <= 3; n++ {
+		alloclib.OpLists(n, func(ops addchain.Program) { small = append(small, ops) })
+	}
+	mk := 0
+	for i, a := range small {
+		for j, b := range small {
+			if (i+j)%3 == 0 || len(a)+len(b) <= 3 {
+				multi([]alloclib.Source{{Ops: a}, {Ops: b}, {Ops: small[(i*7+j)%len(small)]}}, mk)
+				mk++
+			}
+		}
+	}
+	for i := 0; i < nrand; i++ {
+		src := func() alloclib.Source {
+			if r.Chance(1, 3) {
+				return alloclib.Source{Script: alloclib.RandomScript(r, r.Range(1, 6))}
+			}
+			var ops addchain.Program
+			for k, n := 0, r.Range(1, 12); k < n; k++ {
+				j := r.Intn(k + 1)
+				if r.Bool() {
+					j = k
+				}
+				ops = append(ops, addchain.Op{I: r.Intn(j + 1), J: j})
+			}
+			return alloclib.Source{Ops: ops}
+		}
+		multi([]alloclib.Source{src(), src(), src()}, i)
+	}
 	// (c) malformed: ill-formed programs, bad configurations, arbitrary identifiers
 	pool := []string{"x", "z", "t0", "t1", "t2", "", "u"}
 	for i := 0; i < nrand; i++ {
@@ -157,6 +209,8 @@ func oracle(c, res string) string {
 		return alloclib.CheckInterp(c, res)
 	case strings.HasPrefix(c, "history "):
 		return alloclib.CheckHistory(c, res)
+	case strings.HasPrefix(c, "multi "):
+		return alloclib.CheckMulti(c, res)
 	case strings.HasPrefix(c, "sharingdiff "):
 		return "allocation depends on operand object sharing"
 	}
@@ -167,6 +221,9 @@ func nontrivial(c, res string) bool {
 	f := strings.Split(c, " ")
 	if len(f) < 2 || !strings.HasPrefix(res, "ok ") {
 		return false
+	}
+	if f[0] == "multi" {
+		return true
 	}
 	p := alloclib.Decode(f[1])
 	return len(p) >= 3 && alloclib.WellFormed(p)
